@@ -16,6 +16,9 @@ pub mod interpret;
 
 mod overlap;
 
+#[cfg(feature = "verif_hooks")]
+pub mod verif_hooks;
+
 #[derive(Clone, Debug, PartialEq, Eq)]
 pub struct Dfa {
     pub states: Vec<State>,
